@@ -39,9 +39,12 @@ def has_generator(unit):
     return generator_of(unit) is not None
 
 
-def _run(args, timeout=120):
+def _run(args, timeout=120, env=None):
     try:
-        p = subprocess.run([BIN] + args, capture_output=True, text=True, timeout=timeout)
+        e = dict(os.environ)
+        if env:
+            e.update(env)
+        p = subprocess.run([BIN] + args, capture_output=True, text=True, timeout=timeout, env=e)
     except subprocess.TimeoutExpired:
         return {"found": True, "input": " ".join(args), "observed": "no result within %ds (hang)" % timeout, "expected": "termination", "evaluations": 0, "bound": "timeout"}
     out = p.stdout.strip().split("\n")[-1] if p.stdout.strip() else ""
@@ -79,6 +82,13 @@ def run_generator(gen):
         r["replay_args"] = [gen, "run", r.get("input", "")]
     _cache[gen] = r
     return r
+
+
+def run_known(gen, inp, env=None):
+    """replay one recorded known-finding input on the real crate (with the generator's strict switches, if any)"""
+    if not build():
+        return {"found": False, "error": "replay crate did not build: " + _built["log"][-500:]}
+    return _run([gen, "run", inp], env=env) or {"found": False, "error": "generator produced no result"}
 
 
 def replay_file(path):
